@@ -348,7 +348,7 @@ func maxInt64(a, b int64) int64 {
 func init() {
 	register(&World{
 		Name: "encode", Level: "fault_enumeration",
-		Rule: "each evaluation builds a message from a generated sequence of public API calls (AppendData / AppendComment with multi-line strings, ID, Type, Retry incl. sub-millisecond, negative and maximal), records the fault-free encoding with its Write boundaries, and then fails EVERY Write of it in turn after 0, 1, len-1 and a drawn number of accepted bytes. " +
+		Rule: "each evaluation builds a message from a generated sequence of public API calls (AppendData / AppendComment incl. variadic and empty calls, with multi-line strings and values of every length up to 300 bytes and around 4 KiB and 64 KiB, ID, Type incl. set-but-empty, Retry incl. sub-millisecond, negative and maximal), a destination writer shape (Write only, with WriteByte and / or WriteString), records the fault-free encoding with its Write boundaries, and then fails EVERY call of it in turn after 0, 1, len-1 and a drawn number of accepted bytes; a fifth of the runs encode another message while each Write is in progress; the round trip also decodes into a Message that held other fields. " +
 			"Non-trivial: the encoding has at least two Write calls; distinct = distinct call sequences.",
 		Real:        []string{"sse.Message (AppendData, AppendComment, WriteTo, MarshalText, String, UnmarshalText)", "internal/parser.FieldParser"},
 		Stub:        []string{"io.Writer that accepts a chosen number of bytes of the k-th Write and then fails with a unique error"},
